@@ -295,6 +295,10 @@ impl Builder {
         match idx {
             Some(idx) => {
                 if idx < self.module.functions.len() {
+                    if self.selected_function != Some(idx) {
+                        // the selected block belongs to the previously selected function
+                        self.selected_block = None;
+                    }
                     self.selected_function = Some(idx);
                     Ok(())
                 } else {
@@ -382,6 +386,8 @@ impl Builder {
             vec![],
         ));
         self.selected_function = None;
+        // a block can only be selected inside a selected function
+        self.selected_block = None;
         Ok(())
     }
 
